@@ -119,11 +119,6 @@ def demandedLabels (c : Case) : List Label :=
 def isOpaqueKey (c : Case) (k : String) : Bool :=
   c.body.any (fun kv => kv.1 == k && (match kv.2 with | .opaque _ => true | _ => false))
 
-/-- what `_patch_original_class` decides for the same class: reset iff the builder wrote no `__setattr__`,
-    the user has none, and the flag *resolved on the class* is true -/
-def dictReset (c : Case) : Bool :=
-  c.setattrMode == .none && !c.customSetattr && ((c.mro.findSome? (·.ownSetattr)).getD false)
-
 def spec (c : Case) (o : Obs) : Bool :=
   -- same methods and class attributes
   c.body.all (fun kv => !protectedKey c kv.1 kv.2 || lookupS kv.1 o.keys == some .same) &&
@@ -147,7 +142,12 @@ def spec (c : Case) (o : Obs) : Bool :=
   o.initSubclass == (if c.mro.any (·.initSubclass) && !c.body.any (·.1 == "__attrs_init_subclass__")
                      then [.new] else []) &&
   -- hooks agree with the dict build
-  o.setattrReset == dictReset c &&
+  o.setattrReset == dictReset c && o.assignAgree &&
+  -- the hook runs after construction: the class it receives is final, and every function it invokes on it
+  -- already sees that class
+  o.hookView == [] &&
+  o.hookCalls.all (fun lv => lv.2 == .new || isOpaqueKey c lv.1.1) &&
+  (o.initSubclass.isEmpty || (demandedLabels c).all (fun l => o.hookCalls.any (·.1 == l))) &&
   o.runtimeDiff == []
 
 /-- K6: the slotted build looks at the direct bases' own flag, the dict build at the flag resolved along the
@@ -177,7 +177,7 @@ def definesAt (chain : List Level) (j : Nat) : Bool :=
 /-- one call is right: it received the class finally bound for an existing level, and the definition that
     ran is the nearest one above that level -/
 def isubCallOk (chain : List Level) (cl : ISubCall) : Bool :=
-  cl.final && decide (cl.received < chain.length) && decide (cl.definer < cl.received) &&
+  cl.final && cl.probe && decide (cl.received < chain.length) && decide (cl.definer < cl.received) &&
   definesAt chain cl.definer &&
   ((chain.take cl.received).drop (cl.definer + 1)).all (fun l => !l.defines)
 
